@@ -264,6 +264,10 @@ class GatewayMonitor:
                     viols.append(self.v("emitted-line-invalid", exp.kind, f"emitted {text!r} is not valid for protocol {self.version}"))
                 if exp.concerned is not None and fields[0] not in (exp.concerned, 255):
                     viols.append(self.v("emitted-line-misaddressed", exp.kind, f"emitted {text!r} while the step concerns node {exp.concerned}"))
+                if fields[2] == 3 and fields[3] != 0:
+                    # an internal command with the flag set asks the node to echo it; the echo of a config/time/id
+                    # answer is itself a valid request, so the answer would be requested again without end
+                    viols.append(self.v("internal-command-requests-echo", exp.kind, f"emitted {text!r} carries ack flag {fields[3]} (the request's flag leaked into the answer)"))
         if exp.wake:
             self.stats["wake_steps"] += 1
             if len(exp.emits) + len(exp.emits_any) >= 2:
